@@ -125,6 +125,17 @@ def pairing(ck):
             return Text(v.value, v.unit)
         return str(v)
 
+    def m_fstring(parts):
+        """f"{value} unit": the text of a number followed by a unit name denotes `value unit` (what astropy's Quantity parser reads back;
+        the digits python prints for a float round-trip exactly -- repr is the shortest round-tripping text)"""
+        if len(parts) == 2 and isinstance(parts[1], str) and not isinstance(parts[0], str) and parts[1].strip():
+            try:
+                unit = u.Unit(parts[1].strip())
+            except Exception as ex:
+                raise Unsupported("text after the number is not a unit astropy knows: %r (%s)" % (parts[1], ex))
+            return Text(parts[0], unit)
+        raise Unsupported("formatted text outside the `<number> <unit>` model: %r" % (parts,))
+
     for m, fname, val, ser in fields_with_units():
         qn = "config:%s.%s" % (m.__qualname__, fname)
         if fname in CANON and not (m.__name__ == "MonoCloud"):  # the cloud altitude is a plain km number without unit handling
@@ -171,6 +182,7 @@ def pairing(ck):
 
             it2 = harness.make_interp(ov)
             it2.models[str] = (False, m_str)
+            it2.models["fstring"] = m_fstring
 
             def rt(interp_v):
                 pass
